@@ -15,11 +15,16 @@ Local Open Scope N_scope.
    handshake message on that same connection k, from an address that is neither banned nor blacklisted, and
    either the server just issued x as a brand-new identity, or the message names x, x is known and not expired,
    the stored credential of x decrypts to a secret (stored = CKey sec),
-   and the response equals hmac sec (the challenge pending on k). *)
+   and the response equals hmac sec (the challenge pending on k) [proof_step = gate_ok /\ proof_core].
+   Handshakes of several connections overlap in the real server: EBody k m is the completion of a handshake on k whose gate
+   checks were passed EARLIER (other handshakes, failures and bans may have completed in between; an EBody anywhere in a
+   history over-approximates every such overlap).  It authenticates only with the same credential proof (proof_core), which
+   holds in the state in which it completes; its gate clause refers to the state in which it began. *)
 Theorem C03_auth_step_justified :
   forall hmac v s e k x, wf s ->
   authed_as (fst (step hmac MaxFailures PermanentBanAt v s e)) k x ->
-  authed_as s k x \/ exists m, e = EMsg k (Some m) /\ proof_step hmac s k m x.
+  authed_as s k x \/ (exists m, e = EMsg k (Some m) /\ proof_step hmac s k m x)
+                  \/ (exists m, e = EBody k m /\ proof_core hmac s k m x).
 Proof. intros hmac. exact (auth_step_justified hmac MaxFailures PermanentBanAt). Qed.
 Print Assumptions C03_auth_step_justified.
 
@@ -27,8 +32,9 @@ Print Assumptions C03_auth_step_justified.
 Theorem C03_auth_only_if_proved :
   forall hmac v es k x,
   authed_as (run hmac MaxFailures PermanentBanAt v init es) k x ->
-  exists pre m post, es = (pre ++ EMsg k (Some m) :: post)%list /\
-                     proof_step hmac (run hmac MaxFailures PermanentBanAt v init pre) k m x.
+  exists pre m post,
+    (es = (pre ++ EMsg k (Some m) :: post)%list /\ proof_step hmac (run hmac MaxFailures PermanentBanAt v init pre) k m x) \/
+    (es = (pre ++ EBody k m :: post)%list /\ proof_core hmac (run hmac MaxFailures PermanentBanAt v init pre) k m x).
 Proof. intros hmac. exact (auth_only_if_proved hmac MaxFailures PermanentBanAt). Qed.
 Print Assumptions C03_auth_only_if_proved.
 
@@ -55,9 +61,9 @@ Print Assumptions C03_no_usable_secret_never_authenticated.
    legacy SecretKey, version, timestamps = meta): two server states whose client records differ only in those other
    fields get the same response and the same ControlConnection from HandleHandshake, and stay so related. *)
 Theorem C03_gate_ignores_non_gate_fields :
-  forall hmac keep s s' c a m, same_gate s s' ->
-  let '(s1, c1, r) := auth hmac MaxFailures PermanentBanAt keep s c a m in
-  let '(s1', c1', r') := auth hmac MaxFailures PermanentBanAt keep s' c a m in
+  forall hmac chk keep s s' c a m, same_gate s s' ->
+  let '(s1, c1, r) := auth hmac MaxFailures PermanentBanAt chk keep s c a m in
+  let '(s1', c1', r') := auth hmac MaxFailures PermanentBanAt chk keep s' c a m in
   c1 = c1' /\ r = r' /\ same_gate s1 s1'.
 Proof. intros hmac. exact (auth_ignores_meta hmac MaxFailures PermanentBanAt). Qed.
 Print Assumptions C03_gate_ignores_non_gate_fields.
@@ -82,9 +88,9 @@ Print Assumptions C03_async_unban_is_inert.
 (* (3) a handshake message whose outcome is not Success (failed, replayed, out of order, malformed, phase 1)
    leaves "who is authenticated as whom" of EVERY connection, the whole registry and the client table unchanged *)
 Theorem C03_failure_is_inert :
-  forall hmac s k m, wf s ->
-  not_success (snd (handle hmac MaxFailures PermanentBanAt current_variant s k m)) ->
-  inert s (fst (handle hmac MaxFailures PermanentBanAt current_variant s k m)).
+  forall hmac chk s k m, wf s ->
+  not_success (snd (handle hmac MaxFailures PermanentBanAt chk current_variant s k m)) ->
+  inert s (fst (handle hmac MaxFailures PermanentBanAt chk current_variant s k m)).
 Proof. intros hmac. exact (failure_is_inert hmac MaxFailures PermanentBanAt). Qed.
 Print Assumptions C03_failure_is_inert.
 
@@ -92,9 +98,9 @@ Print Assumptions C03_failure_is_inert.
 Theorem C03_gated :
   forall hmac v s k h cn, wf s -> conns s k = Some cn ->
   (blocked s (c_addr cn) = true \/ banned s (c_addr cn) = true) ->
-  o_auth (snd (handle hmac MaxFailures PermanentBanAt v s k (Some h))) = Some AFail /\
-  inert s (fst (handle hmac MaxFailures PermanentBanAt v s k (Some h))) /\
-  pending_of (fst (handle hmac MaxFailures PermanentBanAt v s k (Some h))) k = pending_of s k.
+  o_auth (snd (handle hmac MaxFailures PermanentBanAt true v s k (Some h))) = Some AFail /\
+  inert s (fst (handle hmac MaxFailures PermanentBanAt true v s k (Some h))) /\
+  pending_of (fst (handle hmac MaxFailures PermanentBanAt true v s k (Some h))) k = pending_of s k.
 Proof. intros hmac. exact (gated hmac MaxFailures PermanentBanAt). Qed.
 Print Assumptions C03_gated.
 
@@ -154,9 +160,9 @@ Proof. intros hmac. exact (challenge_single_use hmac MaxFailures PermanentBanAt)
 Print Assumptions C03_challenge_single_use.
 
 Theorem C03_success_is_a_counted_verification :
-  forall hmac v s k h, pend_inv s ->
-  o_auth (snd (handle hmac MaxFailures PermanentBanAt v s k (Some h))) = Some ASuccess ->
-  exists ch, verif_target s k h = Some ch /\ ch < next_nonce s.
+  forall hmac chk v s k h, pend_inv s ->
+  o_auth (snd (handle hmac MaxFailures PermanentBanAt chk v s k (Some h))) = Some ASuccess ->
+  exists ch, verif_target chk s k h = Some ch /\ ch < next_nonce s.
 Proof. intros hmac. exact (success_is_a_counted_verification hmac MaxFailures PermanentBanAt). Qed.
 Print Assumptions C03_success_is_a_counted_verification.
 
@@ -164,8 +170,8 @@ Print Assumptions C03_success_is_a_counted_verification.
 Theorem C03_pinned_nonsuccess_reinstall_refuted :
   exists es k m,
     let s := run toy_hmac 5 20 pinned_variant init es in
-    not_success (snd (handle toy_hmac 5 20 pinned_variant s k m)) /\
-    index s 1 = Some 1%N /\ index (fst (handle toy_hmac 5 20 pinned_variant s k m)) 1 = Some 2%N.
+    not_success (snd (handle toy_hmac 5 20 true pinned_variant s k m)) /\
+    index s 1 = Some 1%N /\ index (fst (handle toy_hmac 5 20 true pinned_variant s k m)) 1 = Some 2%N.
 Proof. exact pinned_nonsuccess_reinstall_refuted. Qed.
 Print Assumptions C03_pinned_nonsuccess_reinstall_refuted.
 
@@ -184,6 +190,6 @@ Theorem C03_premises_satisfiable :
   wf s /\ authed_as s 1 1 /\ index s 1 = Some 1%N /\
   proof_step toy_hmac (run toy_hmac 5 20 current_variant init (List.firstn 5 es)) 1
              {| h_cid := 1; h_new := false; h_resp := Some (toy_hmac 1 1); h_tunnel := false |} 1 /\
-  not_success (snd (handle toy_hmac 5 20 current_variant s 2 (p2 1 7 false))).
+  not_success (snd (handle toy_hmac 5 20 true current_variant s 2 (p2 1 7 false))).
 Proof. exact premises_satisfiable. Qed.
 Print Assumptions C03_premises_satisfiable.
